@@ -5,8 +5,50 @@ fn lines_json(v: Vec<(u8, String)>) -> Value {
     Value::Array(v.into_iter().map(|(k, s)| json!([k, s])).collect())
 }
 
+fn chunks_json(r: &Result<rustfmt_nightly::ModifiedLines, ()>) -> Value {
+    match r {
+        Ok(ml) => Value::Array(
+            ml.chunks.iter().map(|c| json!([c.line_number_orig, c.lines_removed, c.lines])).collect(),
+        ),
+        Err(()) => Value::Null,
+    }
+}
+
+/// case: {"pp": true, "chunks": [[orig, removed, [line, ..]], ..], "text": str}
+/// Display of the chunks, FromStr of that, FromStr of `text` (and whether what `text` parses to is a
+/// fixed point of print-then-parse); public API of the crate only, no hook
+fn run_pp(v: &Value) -> Value {
+    let chunks = v["chunks"]
+        .as_array()
+        .unwrap()
+        .iter()
+        .map(|c| rustfmt_nightly::ModifiedChunk {
+            line_number_orig: c[0].as_u64().unwrap() as u32,
+            lines_removed: c[1].as_u64().unwrap() as u32,
+            lines: c[2].as_array().unwrap().iter().map(|l| l.as_str().unwrap().to_owned()).collect(),
+        })
+        .collect();
+    let ml = rustfmt_nightly::ModifiedLines { chunks };
+    let printed = format!("{}", ml);
+    let reparsed: Result<rustfmt_nightly::ModifiedLines, ()> = printed.parse();
+    let parsed: Result<rustfmt_nightly::ModifiedLines, ()> = v["text"].as_str().unwrap().parse();
+    let fixpoint = match &parsed {
+        Ok(p) => format!("{}", p).parse::<rustfmt_nightly::ModifiedLines>().as_ref() == Ok(p),
+        Err(()) => true,
+    };
+    json!({
+        "printed": printed,
+        "reparsed": chunks_json(&reparsed),
+        "parsed": chunks_json(&parsed),
+        "fixpoint": fixpoint,
+    })
+}
+
 /// case: {"a": str, "b": str, "ctx": n}
 pub fn run(v: &Value) -> Value {
+    if v.get("pp").and_then(|x| x.as_bool()).unwrap_or(false) {
+        return run_pp(v);
+    }
     let a = v["a"].as_str().unwrap();
     let b = v["b"].as_str().unwrap();
     let ctx = v["ctx"].as_u64().unwrap() as usize;
